@@ -51,7 +51,10 @@ CmdViols(r) ==
         v5 == IF ~allStr \/ Len(acc) > 15 \/ c6ok THEN {}
               ELSE {<<"C06", "the server's tokenizer does not read back the command name and exactly the argument strings",
                       IF failing # {} /\ \A k \in failing : KnownCause(acc[k]) THEN "F-C06-1" ELSE "">>}
-    IN v1 \cup v2 \cup v3 \cup v4 \cup v5)
+        \* both connection flavours put the same bytes on the wire, also over a transport that takes a few bytes per write
+        v6 == IF r.wire_async_same THEN {} ELSE {<<"C06", "the async connection does not write the complete command line (short writes)", "">>,
+                                                 <<"C07", "the async connection does not write the complete command line (short writes)", "">>}
+    IN v1 \cup v2 \cup v3 \cup v4 \cup v5 \cup v6)
 
 RECURSIVE CatL(_)
 CatL(ss) == IF ss = <<>> THEN <<>> ELSE Head(ss) \o CatL(Tail(ss))
@@ -60,6 +63,7 @@ ListViols(r) ==
   LET exp == IF r.n = 1 THEN r.lines[1] ELSE CLOKBEGIN \o <<10>> \o CatL(r.lines) \o CLEND \o <<10>> IN
   (IF r.wire = exp THEN {} ELSE {<<"C13", "command list is not framed as command_list_ok_begin, the N command lines in order, command_list_end (or the bare command for N = 1)", "">>,
                                  <<"C07", "command list framing altered", "">>})
+  \cup (IF r.wire_async_same THEN {} ELSE {<<"C13", "the async connection does not write the complete command list block (short writes)", "">>})
   \cup (IF r.len = r.n THEN {} ELSE {<<"C13", "CommandList::len disagrees with the number of commands", "">>})
   \cup (IF NumLF(r.wire) = (IF r.n = 1 THEN 1 ELSE r.n + 2) THEN {} ELSE {<<"C07", "command list does not consist of begin, N lines, end", "">>})
 
